@@ -170,6 +170,44 @@ def bystander_checks(run: core.Run) -> None:
                           f"no node reads (numpy arrays, NaN, a generator, an object whose == raises, mixed-key mappings, a lone surrogate)", {"nodes": nodes})
 
 
+def magnitude_checks(run: core.Run) -> None:
+    """The model's values are small integers; the node semantics do not depend on magnitude.  The same hand-computed
+    pipelines are run with values across the float range (exponent notation on both sides, subnormal, -0.0, integers
+    beyond 2**53, bool, text): data and parameters must arrive bit-identical and a template must render a value the
+    way Python's str.format renders it."""
+    from .. import seams
+    seams.setup()
+    from semantiva.context_processors import ContextType
+    from semantiva.examples.test_utils import FloatDataType
+    from semantiva.pipeline import Payload, Pipeline
+
+    values = [1e16, 1e-05, 1e-06, 1.5e300, 5e-324, -0.0, 123456789.125, 0.30000000000000004, 9007199254740993, -7, True, "007", "1e3", 1e22, 2.5e-10]
+    for v in values:
+        run.evaluations += 1
+        nodes = [{"processor": 'template:"x={factor}|{other}":label'}, {"processor": "rename:factor:kept"},
+                 {"processor": "FloatCollectValueProbe", "context_key": "seen"}]
+        try:
+            res = Pipeline(copy.deepcopy(nodes)).process(Payload(FloatDataType(v if isinstance(v, float) else 3.0), ContextType({"factor": v, "other": [v]})))
+            c = res.context.to_dict()
+            want_label = "x={factor}|{other}".format(factor=v, other=[v])
+            same = lambda a, b: type(a) is type(b) and repr(a) == repr(b)
+            if c.get("label") != want_label or not same(c.get("kept"), v) or not same(c.get("seen"), v if isinstance(v, float) else 3.0):
+                run.violation("value-magnitude:context", f"{nodes} with factor = {v!r}: label {c.get('label')!r} (str.format gives {want_label!r}), "
+                              f"kept {c.get('kept')!r}, probed {c.get('seen')!r}", {"nodes": nodes, "value": repr(v)})
+        except Exception as exc:
+            run.violation("value-magnitude:raises", f"{nodes} with factor = {v!r} raises {type(exc).__name__}: {str(exc)[:160]}", {"nodes": nodes, "value": repr(v)})
+        if isinstance(v, float):
+            run.evaluations += 1
+            nodes = [{"processor": "FloatMultiplyOperation"}, {"processor": "FloatAddOperation", "parameters": {"addend": v}}]
+            try:
+                res = Pipeline(copy.deepcopy(nodes)).process(Payload(FloatDataType(3.0), ContextType({"factor": v})))
+                if repr(res.data.data) != repr(3.0 * v + v):
+                    run.violation("value-magnitude:data", f"{nodes} with factor = addend = {v!r} on 3.0 gives {res.data.data!r}, arithmetic gives {3.0 * v + v!r}",
+                                  {"nodes": nodes, "value": repr(v)})
+            except Exception as exc:
+                run.violation("value-magnitude:raises", f"{nodes} with factor = {v!r} raises {type(exc).__name__}: {str(exc)[:160]}", {"nodes": nodes, "value": repr(v)})
+
+
 def check(tier: str) -> int:
     run = core.Run("C01", tier)
     run.rule = ("cases = terminal behaviours of Pipeline.tla (program x initial context x initial data) emitted by TLC "
@@ -207,4 +245,5 @@ def check(tier: str) -> int:
     from . import c01_trace
     c01_trace.validate(run, tier)
     bystander_checks(run)
+    magnitude_checks(run)
     return run.finish()
